@@ -66,7 +66,27 @@ func shortType(s string) string {
 	return s
 }
 
-func typeStr(t types.Type) string { return shortType(types.TypeString(t, nil)) }
+func typeStr(t types.Type) string { return shortType(types.TypeString(canonType(t), nil)) }
+
+// canonType removes aliases (hackpadfs.PathError = io/fs.PathError etc.) below pointers, slices and arrays too.
+func canonType(t types.Type) types.Type {
+	t = types.Unalias(t)
+	switch u := t.(type) {
+	case *types.Pointer:
+		if e := canonType(u.Elem()); e != u.Elem() {
+			return types.NewPointer(e)
+		}
+	case *types.Slice:
+		if e := canonType(u.Elem()); e != u.Elem() {
+			return types.NewSlice(e)
+		}
+	case *types.Array:
+		if e := canonType(u.Elem()); e != u.Elem() {
+			return types.NewArray(e, u.Len())
+		}
+	}
+	return t
+}
 
 func isNamed(t types.Type, pkg, name string) bool {
 	n, ok := t.(*types.Named)
@@ -358,6 +378,12 @@ func typeFacts(t types.Type, v Value, heaptop0 *Term) []*Term {
 		out = append(out, Implies(Eq(x.Ref, IntLit(0)), And(Eq(x.Cap, IntLit(0)), Eq(x.Off, IntLit(0)))))
 	case IfaceV:
 		out = append(out, Le(IntLit(0), x.Tag), Implies(Eq(x.Tag, IntLit(0)), Eq(x.Val, IntLit(0))))
+		if isErrorType(t) {
+			// error values holding a *PathError / *LinkError hold a non-nil pointer (typed-nil errors are excluded)
+			for _, pt := range errPtrTags {
+				out = append(out, Implies(Eq(x.Tag, pt), Le(IntLit(1), x.Val)))
+			}
+		}
 		if t2, ok := t.Underlying().(*types.Interface); ok && t2.NumMethods() > 0 && !isErrorType(t) {
 			// non-empty, non-error interfaces in this code base hold pointer-shaped or boxed payloads
 			out = append(out, Le(IntLit(0), x.Val))
@@ -381,6 +407,8 @@ func typeFacts(t types.Type, v Value, heaptop0 *Term) []*Term {
 	return res
 }
 
+var errPtrTags []*Term
+
 // ---- dynamic type tags ----
 
 type tagReg struct {
@@ -391,7 +419,7 @@ type tagReg struct {
 var tags = &tagReg{ids: map[string]int{}}
 
 func (r *tagReg) id(t types.Type) int {
-	t = types.Unalias(t)
+	t = canonType(t)
 	k := types.TypeString(t, nil)
 	if id, ok := r.ids[k]; ok {
 		return id
